@@ -11,7 +11,7 @@ MANIFEST = {
     "C01": {
         "technique": "Lean 4 proof (invariant + refinement of a model of Map/MultiMap with stored height/slope fields, early-exit flags, threaded prev/next list and free list to a sorted association list, by induction over reachable states; lookup cost <= 2*height and the Fibonacci height bound) + translation of the rotation code (updateHeightAndSlope, rotr, rotl, shiftr, shiftl, rebal) of the current headers into Lean functions over a record-of-nodes heap, proved equal to the model's functions on the abstraction + differential correspondence model vs real Map.hpp/MultiMap.hpp with a comparison-counting key type and a white-box comparison of every stored field after every op",
         "text": "Theorems (lean/Nstd/Avl/Props.lean, PropsK.lean, PropsKSpec.lean, PropsIds.lean, PropsRot.lean) over ALL operation histories of the Lean model, including hinted inserts at every position, removals by key/iterator, removeFront/Back, clear, copy construction and copy assignment (Map and MultiMap) and bulk insert between Maps: every reachable tree is an AVL-balanced search tree with correct stored height/slope, the prev/next list threads its in-order sequence (inv_reach, iter_reach, isEmpty_reach); every op takes a step of the sorted-(multi)map specification on contents, acceptance and returned value (refines_rel, refines_run_rel; MultiMap hinted insert relationally via Spec.HintPos); copies hold exactly the source's entries, a MultiMap copy keeps equal keys in order (copy_spec, copy_ctor_spec); MultiMap plain inserts are stable, count is exact; find needs <= 2*floor(1.4405*log2(n+2)) comparisons (find_cost_log), every other op at most 3 more (op_cost_log); items keep their identity unless an op removes exactly them (ids_stable_step); an insert that creates an item takes the head of the LIFO free list or the last slot of a fresh block of N items, never the address of a live item, and the first insert after remove(it) reuses exactly the removed address (alloc_lifo, insert_takes_free_head, remove_then_insert_reuses; N translated from the headers).  PropsK/PropsIds restate cost, height, order and identity for every strictly totally ordered key type; PropsKSpec states the refinement directly against a specification typed over K (G.refines_relK, G.refines_run_relK).  PropsRot: the pointer code of Item::updateHeightAndSlope, rotr, rotl, shiftr, shiftl and rebal, extracted from the CURRENT Map.hpp and MultiMap.hpp by tools/gen_avl.py on every run, is the model's upd/rotr/rotl/shiftr/shiftl/rebal on every heap that holds a tree with distinct item ids (all stored fields, child and parent links; nothing else changes) - gen_*_eq_model.  The rest of the model is tied to the current Map.hpp/MultiMap.hpp on every run: identical op lines are executed on both (two Maps and two MultiMaps) and compared on size, full iteration, returned iterator, key comparisons of every op, for every key of the domain the find result and its comparison count, and (white-box, both tiers) the serialised tree with every stored height/slope and parent link, the prev/next list as item ids and the free list in order; an independent Python sorted (multi)map and the direct integer evaluation of the comparison bound are evaluated on the implementation's output.",
-        "note": "Trusted: Lean kernel + the three standard axioms; the hand translation of the descent / list threading / upward loops of the private insert, of remove (unlinking, rebalParent, rebalParentUpwards), of the hinted insert, find, count, clear and the copy loops into the model (validated by the correspondence run incl. the white-box comparison, not proved); tools/gen_avl.py (tokenizer + parser + translation of a C++ subset: Item* = Nat with 0 = null, Item*& = Cell, usize = Nat, ssize = Int, `usize - usize` stored into an ssize = mathematical difference, ASSERTs skipped; anything outside the subset is refused and reported as a broken tie); pointers are modelled as in-order positions / item ids (an iterator handed to insert/remove is the position it has in the iteration); the checked model has Int keys, the key-generic copy ModelK.lean is proved equal to it at K = Int (G.int_instance); the items-per-block constant of the node pool is translated from the current headers on every run (Generated/AvlConst.lean); allocation never fails; valid iterators; self-assignment is C04's business.  The MultiMap.hpp copies of the six rotation functions are proved equal to the Map.hpp ones (code_eq).  The node-pool theorems are stated for Int keys only.  The repaired MultiMap::find/count (fixes/avl/01,02) is what the model mirrors.",
+        "note": "Trusted: Lean kernel + the three standard axioms; the hand translation of the descent / list threading / upward loops of the private insert, of remove (unlinking, rebalParent, rebalParentUpwards), of the hinted insert, find, count, clear and the copy loops into the model (validated by the correspondence run incl. the white-box comparison, not proved); tools/gen_avl.py (tokenizer + parser + translation of a C++ subset: Item* = Nat with 0 = null, Item*& = Cell, usize = Nat, ssize = Int, `usize - usize` stored into an ssize = mathematical difference, ASSERTs skipped; anything outside the subset is refused and reported as a broken tie); pointers are modelled as in-order positions / item ids (an iterator handed to insert/remove is the position it has in the iteration); the checked model has Int keys, the key-generic copy ModelK.lean is proved equal to it at K = Int (G.int_instance); the items-per-block constant of the node pool is translated from the current headers on every run (Generated/AvlConst.lean); allocation never fails; valid iterators; self-assignment is C04's business.  The MultiMap.hpp copies of the six rotation functions are proved equal to the Map.hpp ones (code_eq).  The repaired MultiMap::find/count (fixes/avl/01,02) is what the model mirrors.",
         "design_ref": "DESIGN.md 3/C01",
     }
 }
@@ -613,7 +613,6 @@ def check(ctx):
         "self-assignment and self bulk insert are outside this property's generators (C04); copies are made between two different containers of the same kind",
     ]
     ctx.cov["open_statements"] = [
-        "alloc_lifo / insert_takes_free_head / remove_then_insert_reuses are proved for Int keys, not transferred to the key-generic model",
         "only updateHeightAndSlope / rotr / rotl / shiftr / shiftl / rebal are tied by translation + proof (PropsRot.lean); the loops of insert / remove / hinted insert / find / count / clear / copy are hand-translated and tied by the correspondence run",
     ]
     proof_ok = C.proof_stage(ctx, PROPS, [DRIVER], gen=gen, leanchecker=(ctx.tier == "thorough"))
